@@ -41,6 +41,11 @@ def decoder_universe():
 def small_values(s, defs):
     t = {"k": "struct", "ptr": False, "s": s}
     out = [("b1", U.base_value(t, defs, 2, 0, 1)), ("b2", U.base_value(t, defs, 3, 3, 2))]
+    if defs[s].get("unk"):
+        # holder types: messages that carry unknown fields (recorded while decoding, copied out at the end)
+        for lbl, v in list(out):
+            v2 = {"f": v["f"], "unk": U.unknown_bytes([0, 1, 3])}
+            out.append((lbl + "u", v2))
     return out
 
 
@@ -60,7 +65,7 @@ def run(prop, tier, seed, work):
     types = ["Sc", "Co", "St", "Re", "LeafUnk", "LeafReq"]
     for s in types:
         for (vl, v) in small_values(s, defs):
-            muts = ["prefix", "subst", "len"] if (vl == "b1" or not quick) else ["prefix"]
+            muts = ["prefix", "subst", "len"] if (vl in ("b1", "b1u") or not quick) else ["prefix"]
             for mut in muts:
                 cases.append({"cid": "%s|%s|%s" % (s, vl, mut), "w": s, "val": v, "ord": "asc", "trail": [], "mut": mut})
     msgs, st = vlib.gen_messages(work, defs_path, cases)
